@@ -38,9 +38,15 @@ Dropped(occ) ==
   IN Plus(Res(TRUE, TRUE, Len(occ.attrs), IF DataText(occ) THEN 1 ELSE 0), sub[Len(occ.items)])
 
 RECURSIVE DeserElem(_, _, _, _)
+\* character data that a processing instruction splits into two nodes (DOMs built by ProgramTrace carry [kind |-> "pi"] items)
+SplitByPi(occ) ==
+  \E i, j, k \in 1..Len(occ.items) :
+     i < j /\ j < k /\ occ.items[i].kind = "text" /\ occ.items[j].kind = "pi" /\ occ.items[k].kind = "text"
+     /\ \A m \in (i + 1)..(k - 1) : occ.items[m].kind = "pi"
 \* an element delivered into a String field: its character data is the value; attributes are not looked at
-DeserString(occ) ==
+DeserString(occ, kind) ==
   IF Elems(occ.items) # <<>> THEN Res(FALSE, FALSE, 0, 0)        \* a String cannot take child elements
+  ELSE IF kind = "serde_xml_rs" /\ SplitByPi(occ) THEN Res(FALSE, FALSE, 0, 0)   \* serde-xml-rs 0.6: known finding KF-C13-SPLITTEXT
   ELSE Res(TRUE, TRUE, Len(occ.attrs), 0)
 
 DeserElem(ss, k, occ, kind) ==
@@ -65,7 +71,7 @@ DeserElem(ss, k, occ, kind) ==
               IF j = 0 THEN Res(TRUE, TRUE, 0, 0)
               ELSE LET prev == each[j - 1]
                    IN IF i = 0 THEN Plus(prev, Plus(Res(TRUE, FALSE, 0, 0), Dropped(kids[j])))
-                      ELSE IF fs[i].base = StringTy THEN Plus(prev, DeserString(kids[j]))
+                      ELSE IF fs[i].base = StringTy THEN Plus(prev, DeserString(kids[j], kind))
                       ELSE LET sk == StructIdxOf(ss, fs[i].base)
                            IN IF sk = 0 THEN Res(FALSE, FALSE, 0, 0) ELSE Plus(prev, DeserElem(ss, sk, kids[j], kind))
         IN IF i # 0 /\ ~fs[i].vec /\ Len(kids) > 1 THEN Res(FALSE, FALSE, 0, 0)    \* duplicate field
